@@ -32,11 +32,16 @@ func TestC01Parallel(t *testing.T) {
 			return nil
 		})
 		var wg sync.WaitGroup
+		panics := make([]string, blocks)
 		for b := 0; b < blocks; b++ {
 			wg.Add(1)
 			go func(b int) {
 				defer wg.Done()
-				defer func() { recover() }()
+				defer func() {
+					if r := recover(); r != nil {
+						panics[b] = fmt.Sprint(r)
+					}
+				}()
 				for i := 0; i <= rounds; i++ {
 					for k := 0; k < rowsPer; k++ {
 						row := uint32(b)<<14 + uint32(k*7)
@@ -52,6 +57,11 @@ func TestC01Parallel(t *testing.T) {
 			}(b)
 		}
 		wg.Wait()
+		for b, p := range panics {
+			if p != "" {
+				t.Fatalf("C01 violated (writers of %d different blocks committing concurrently): the writer of block %d panicked inside a commit: %s", blocks, b, p)
+			}
+		}
 		for b := 0; b < blocks; b++ {
 			for k := 0; k < rowsPer; k++ {
 				row := uint32(b)<<14 + uint32(k*7)
